@@ -304,16 +304,18 @@ def wire_order_oracle(frames):
 
 
 def stuck_reset_oracle(snap):
-    """after the connection settled with an unblocked transport: a stream that was reset (locally or by the peer) has nothing
-    left in its send queue -- its RST_STREAM needs no flow-control credit, and DATA of a reset stream must not be (re-)queued"""
+    """a stream that was reset (locally or by the peer) must not be left with frames in its send queue and nobody to send them:
+    its RST_STREAM needs no flow-control credit, and DATA of a reset stream must not be (re-)queued"""
     viol = []
     if not snap or snap.get("conn", {}).get("conn_error"):
         return viol
     for st in snap.get("streams", []):
-        if "Closed(Error(Reset(" in st.get("state", "") and st.get("pending_send_len", 0) > 0:
-            viol.append({"why": "a reset stream still has frames queued after the connection settled (DATA re-queued on a reset stream / RST_STREAM stuck)",
-                         "stream": st.get("id"), "pending_send_len": st.get("pending_send_len"), "send_available": st.get("send_available"),
-                         "buffered_send_data": st.get("buffered_send_data"), "state": st.get("state")})
+        # frames queued on a reset stream that is neither scheduled (pending_send) nor waiting to be opened can never be sent:
+        # nothing will schedule a reset stream again
+        if ("Closed(Error(Reset(" in st.get("state", "") and st.get("pending_send_len", 0) > 0 and not st.get("is_pending_send", 1)
+                and not st.get("is_pending_open", 1)):
+            viol.append({"why": "a reset stream has frames queued but is not scheduled (DATA re-queued on a reset stream / its RST_STREAM is stuck)",
+                         "stream": st})
     return viol
 
 
@@ -463,8 +465,9 @@ def oracle_inject(rep, scs):
 
 
 def known_panic(msg):
-    # the `unstable`-only debug assertion in Drop for Store (records left in the slab) is a feature-unification artefact
-    return "store" in msg.lower() and "drop" in msg.lower()
+    # the `unstable`-only debug assertions in Drop for Store / Drop for Counts (records left when the whole connection is
+    # dropped mid-flight) are feature-unification artefacts of the harness build, not library behaviour
+    return "assertion failed: self.slab.is_empty()" in msg or "assertion failed: !self.has_streams()" in msg
 
 
 def corpus_scenarios(area):
